@@ -20,6 +20,19 @@ def load_prop(pid):
 
 
 # ----------------------------------------------------------------------------- worker side
+# receiver stubs of the K kernels (stand-ins for str subclasses / records that cannot carry symbolic content): code that asks
+# a stub for something the real object has and the stub lacks is outside the harness, not a violation
+STUB_CLASSES = ("Rec", "Stub", "Loc", "TD", "Tok", "WStr")
+
+
+def _stub_limit(e):
+    if isinstance(e, AttributeError):
+        import re
+        m = re.match(r"'(\w+)' object has no attribute", str(e))
+        return bool(m and m.group(1) in STUB_CLASSES)
+    return False
+
+
 def _guard(fn):
     from .symterms import CONTROL_SEEN
 
@@ -28,6 +41,9 @@ def _guard(fn):
         try:
             r = fn(*args)
         except Exception as e:  # never BaseException: CrossHair steers with those
+            if _stub_limit(e):
+                from crosshair.util import UnexploredPath
+                raise UnexploredPath("the code under test uses a part of the receiver's interface that the harness stub lacks: %s" % e)
             r = "unexpected exception %s" % type(e).__name__
         if CONTROL_SEEN[0]:
             from crosshair.util import UnexploredPath
@@ -51,6 +67,8 @@ def replay_body(pm, ob, cex, falsy="str"):
     try:
         return body(ob["desc"], RealFactory(falsy), *args)
     except Exception as e:
+        if _stub_limit(e):
+            return None
         return "unexpected exception %s: %s" % (type(e).__name__, str(e)[:200])
 
 
